@@ -2,12 +2,12 @@ SPECIFICATION MCSpec
 CONSTANTS WBase = 32768
   SchemeOpts <- SchemeFull
   UiOpts <- UiSmall
-  HostOpts <- HostFull
+  HostOpts <- HostSmall
   PortOpts <- PortSmall
   PathOpts <- PathFull
   QueryOpts <- QuerySmall
   ByteAlphabet <- AlphaBytes
   MaxBytes = 3
   GenMode = FALSE
-INVARIANTS InvSlices InvDelims InvPort InvQuery InvRoundTrip InvShape InvConcat InvParamStricter InvDecText
+INVARIANTS InvSlices InvDelims InvPort InvQuery InvRoundTrip InvShape InvConcat InvParamStricter InvDecText InvScanner
 CHECK_DEADLOCK FALSE
